@@ -8,6 +8,7 @@ import time
 
 from . import VERIF
 from .model import AnalysisError, norm_stmt
+from .sym import Inconclusive as S_Inconclusive
 
 EVIDENCE_DIR = os.path.join(VERIF, "evidence")
 REPLAY_DIR = os.path.join(EVIDENCE_DIR, "replay")
@@ -103,6 +104,18 @@ class Ctx:
     def error(self, rule, message):
         self.errors.append({"rule": rule, "message": message})
 
+    def rule(self, fn, *args, **kwargs):
+        """Run one rule group; an AnalysisError inside it is recorded (exit status 2
+        unless a violation is found elsewhere) and the other rule groups still run."""
+        try:
+            return fn(self, *args, **kwargs)
+        except AnalysisError as e:
+            self.error(getattr(fn, "__name__", "rule"), str(e))
+        except S_Inconclusive as e:
+            self.error(getattr(fn, "__name__", "rule"), "inconclusive: %s" % e)
+        except RecursionError as e:
+            self.error(getattr(fn, "__name__", "rule"), "recursion limit in analysis")
+
     def need(self, cond, rule, message):
         if not cond:
             raise AnalysisError("%s: %s" % (rule, message))
@@ -152,7 +165,7 @@ class Ctx:
         if self.errors:
             status = 2
         if violations:
-            status = 1 if status == 0 else status
+            status = 1
             os.makedirs(REPLAY_DIR, exist_ok=True)
             for i, f in enumerate(violations):
                 path = os.path.join(REPLAY_DIR, "%s-%d.json" % (self.prop, i))
